@@ -254,6 +254,8 @@ func (e *bigEnv) bytesOf(v ssa.Value, at ssa.Instruction) *X {
 				return L(e.fieldPath(fa))
 			}
 		}
+	case *ssa.MakeInterface:
+		return e.bytesOf(x.X, at)
 	case *ssa.Convert, *ssa.ChangeType:
 	}
 	return e.plain(v, at)
